@@ -765,10 +765,15 @@ func postData(req *http.Request, logBody bool) (*PostData, error) {
 		return nil, err
 	}
 
-	br, err := mv.BodyReader()
+	// SnapshotRequest replaced req.Body with the de-framed body; log that, not
+	// the wire framing (a chunked upload would otherwise be logged with its
+	// chunk sizes).
+	raw, err := ioutil.ReadAll(req.Body)
 	if err != nil {
 		return nil, err
 	}
+	req.Body = ioutil.NopCloser(bytes.NewReader(raw))
+	br := bytes.NewReader(raw)
 
 	switch mt {
 	case "multipart/form-data":
